@@ -144,7 +144,7 @@ func init() {
 	}
 	props["C13"] = &Prop{
 		Rule: "op reader <T> <tau> <omega> <script>: the real file_handler.Handle on a scripted io.Reader under bufio (chunks of bytes, single/double/triple EOF and i/o-timeout results between and inside " +
-			"frames at every byte offset of short streams, other errors anywhere, including directly after a tolerated interruption), tolerances (0,0), (80 ms, wait 1 ms), (3 ms, wait 15 ms); forwarded bytes, stop reason and delivered messages compared with " +
+			"frames at every byte offset of short streams, other errors anywhere, including directly after a tolerated interruption), hundreds of single interruptions in one call, tolerances (0,0), (80 ms, wait 1 ms), (3 ms, wait 15 ms); forwarded bytes, stop reason and delivered messages compared with " +
 			"the model run on an ideal clock and with the property (single interruptions invisible; a stop still delivers everything received, channel closed); non-trivial = the script contains an interruption; distinct = distinct op line",
 		Gen: func(c *Ctx, emit func(class, op string)) {
 			r := c.Rng
@@ -195,6 +195,26 @@ func init() {
 						emit("single-interruption-with-data", mk([2]int{80, 1}, items2))
 					}
 				}
+			}
+			// a bursty live source: hundreds of single interruptions in one call, each followed by data
+			for i := 0; i < c.N(3, 20); i++ {
+				bs := pipeStream(c)
+				for len(bs) < 400 {
+					bs = append(bs, pipeStream(c)...)
+				}
+				if len(bs) > 700 {
+					bs = bs[:700]
+				}
+				var items []string
+				for pos := 0; pos < len(bs); {
+					n := 1 + r.Intn(3)
+					if pos+n > len(bs) {
+						n = len(bs) - pos
+					}
+					items = append(items, "b:"+hx(bs[pos:pos+n]), fail())
+					pos += n
+				}
+				emit("many-single-interruptions", mk([2]int{80, 1}, items))
 			}
 			// another read error arriving while the handler is already retrying after a tolerated
 			// end-of-file or timeout (no byte read in between): it stops there, whatever follows
